@@ -30,7 +30,9 @@ LeavesOf(fam) ==
                           Obj(<<Prop("k", LS("y"), FALSE), Prop("b", TNumber, FALSE)>>, <<>>),
                           \* nested objects under the same key in several members (intersection / union merging)
                           Obj(<<Prop("n", Obj(<<Prop("x", TString, FALSE)>>, <<>>), FALSE)>>, <<>>),
-                          Obj(<<Prop("k", Uni(<<LS("x"), LS("w")>>), FALSE), Prop("a", TString, FALSE)>>, <<>>)}
+                          Obj(<<Prop("k", Uni(<<LS("x"), LS("w")>>), FALSE), Prop("a", TString, FALSE)>>, <<>>),
+                          \* a union nested inside a member of a union (error paths relative to the union's position)
+                          Uni(<<TString, Obj(<<Prop("b", Uni(<<TNumber, TBoolean>>), FALSE)>>, <<>>)>>)}
     [] fam = "tpl"    -> {Tpl(<<TpLit("x"), TpNum>>), Tpl(<<TpStr, TpLit("-"), TpStr>>), Tpl(<<TpBool>>),
                           Tpl(<<TpLit("a"), TpOne(<<"b", "bc">>)>>), Tpl(<<TpNum, TpLit("px")>>),
                           Tpl(<<TpLit("a."), TpStr>>), Tpl(<<TpStr>>), Tpl(<<TpOne(<<"a", "ab">>), TpLit("c")>>)}
@@ -42,7 +44,10 @@ LeavesOf(fam) ==
                                  Obj(<<Prop("s", SetT(TString), FALSE), Prop("d", Prim("Date"), FALSE), Prop("b", TNumber, TRUE)>>, <<>>)>>),
                            Uni(<<Obj(<<Prop("t", TaT("Uint8Array"), FALSE), Prop("g", Prim("bigint"), FALSE)>>, <<>>),
                                  Obj(<<Prop("t", TaT("Uint8Array"), FALSE), Prop("n", TNumber, TRUE)>>, <<>>)>>),
-                           Uni(<<MapT(TString, TNumber), MapT(TString, TString)>>)}
+                           Uni(<<MapT(TString, TNumber), MapT(TString, TString)>>),
+                           \* containers with several entries below the root, next to a sibling
+                           Obj(<<Prop("m", MapT(TString, TNumber), FALSE), Prop("z", TNumber, FALSE)>>, <<>>),
+                           Obj(<<Prop("s", SetT(TNumber), FALSE), Prop("z", TNumber, FALSE)>>, <<>>)}
     [] fam = "format" -> {SFmt(<<"f1">>), SFmt(<<"f1", "f2">>), NFmt(<<"n1">>), NFmt(<<"n1", "n2">>), TString}
     \* discriminated unions whose variants are named, are intersections of named types that both declare the tag, or carry
     \* an index signature (declarations: PresetEnv)
